@@ -265,7 +265,8 @@ def run_case(case, obs):
     gapped = case["spec"] in ("geometric", "gapped_tail", "rankdef", "illcond")
     emb = case.get("embedding", 1) if cls == "ExtendedEOF" else 1
     # does every randomised step see a sketch (modes + 10 oversamples) that spans the range, or a decaying spectrum?
-    ok_final = (k + 10) >= b["r"] * emb or gapped or last == "svd"
+    # (a delay-embedded matrix does not inherit a geometric spectrum: for ExtendedEOF only a capturing sketch counts)
+    ok_final = (k + 10) >= b["r"] * emb or (gapped and cls != "ExtendedEOF") or last == "svd"
     ok_pca = True
     if len(chain) > 1 and chain[0] != "svd":
         ok_pca = (case.get("n_pca", 0) + 10) >= b["r"] or gapped
@@ -290,6 +291,10 @@ def run_case(case, obs):
 
     # ---- read the public results back by label ---------------------------------
     coords = xu.labels(b["X"], ("time",) + tuple(b["fdims"]))
+    # hostile accessor history: the non-default switches must not change what is returned afterwards
+    # (an in-place scaling of the stored components / scores would)
+    model.components(normalized=False)
+    model.scores(normalized=True)
     comps = model.components()
     scores = model.scores()
     if cls == "ExtendedEOF":
